@@ -75,6 +75,33 @@ theorem failed_connect_writes_nothing (cred : Option (Bytes × Bytes)) (w : Worl
     rw [(failed_connect_releases cred w h).2.2.2]
     cases w.base.connected <;> simp [C11.allWrites]
 
+/-- what replaces the body of `connect` when the TCP connection does not come about: the SSL layer of the old
+    connection is removed, then the error -/
+def connectFailBody : MT Replies := do
+  modifyT fun w => { w with ctlTls := false, ctlSsl := false }
+  throwT
+
+/-- a failed connect is `connectT` with everything from the opening of the new connection on replaced by the error:
+    the two share the argument checks and the abandoning of the open connection (`connectT_eq` states the same
+    decomposition for `connectT`, with `connectBody host port cred` in the place of `connectFailBody`; `connectBody`
+    begins with the same removal of the SSL layer) -/
+theorem failed_connect_is_connect_up_to_the_connection (cred : Option (Bytes × Bytes)) :
+    connectFailT cred =
+      match cred with
+      | some (u, p) => lift (mkCmd "USER" (some u)) >>= fun _ => lift (mkCmd "PASS" (some p)) >>= fun _ =>
+          connectDropT >>= fun _ => connectFailBody
+      | none => connectDropT >>= fun _ => connectFailBody := by
+  cases cred with
+  | none =>
+    exact getT_ite_jp (fun w => w.base.connected) (fun w0 => emitT (.ev w0.ctlTls .ctlClose))
+      (modifyT fun w => { w with base := { w.base with connected := false } }) connectFailBody
+  | some c =>
+    obtain ⟨u, p⟩ := c
+    show (lift (mkCmd "USER" (some u)) >>= fun _ => lift (mkCmd "PASS" (some p)) >>= fun _ => _) = _
+    congr 1; funext _; congr 1; funext _
+    exact getT_ite_jp (fun w => w.base.connected) (fun w0 => emitT (.ev w0.ctlTls .ctlClose))
+      (modifyT fun w => { w with base := { w.base with connected := false } }) connectFailBody
+
 /-- non-vacuity: a protected session, then a connect that fails: the old connection is closed, the layer is gone -/
 example :
     let w : WorldT := { base := { mode := .passive, ttype := .binary, rfc := true, connected := true }, tlsCtx := true,
